@@ -854,7 +854,6 @@ func (g *gen) structuredCase(k, size int) (string, any) {
 			in = []any{g.subject(), g.subject(), g.scalar()}
 		}
 		return g.wrap(f), in
-	}
 	case 13: // deletions that FAIL after earlier paths were already marked: the error message previews a value
 		// that contains the internal deletion marker
 		in := g.delInput(size)
